@@ -3,7 +3,6 @@ package main
 import (
 	"fmt"
 	"math"
-	"os"
 
 	"gonum.org/v1/gonum/blas"
 	"gonum.org/v1/gonum/blas/blas64"
@@ -447,14 +446,7 @@ type checker struct {
 	quietEmpty bool
 }
 
-// triage (environment C02_TRIAGE=1, never set by the driver) hides failures that
-// carry a known-finding class so that the rest can be inspected by hand.
-var triage = os.Getenv("C02_TRIAGE") != ""
-
 func (ck *checker) failf(format string, a ...any) {
-	if triage && ck.class != "" {
-		return
-	}
 	msg := fmt.Sprintf(format, a...)
 	if ck.ctx != "" {
 		msg = "[" + ck.ctx + "] " + msg
